@@ -77,40 +77,47 @@ def err_id(e):
 
 
 class HotSource:
-    """Observable whose observer the harness drives by hand; logs subscribe /
-    dispose instants (input positions)."""
+    """Observable whose observers the harness drives by hand; logs subscribe /
+    dispose instants (input positions).  A notification is pushed to every
+    subscription that has not been disposed."""
 
     def __init__(self, clock):
         import reactivex
         from reactivex.disposable import Disposable
-        self.observers = []
-        self.log = []          # ('sub', tag) / ('unsub', tag)
+        self.observers = []    # [observer, live]
+        self.log = []          # ('sub', idx, tag) / ('unsub', idx, tag)
         self.clock = clock
 
         def subscribe(observer, scheduler=None):
             idx = len(self.observers)
-            self.observers.append(observer)
+            rec = [observer, True]
+            self.observers.append(rec)
             self.log.append(("sub", idx, clock[0]))
 
             def dispose():
+                rec[1] = False
                 self.log.append(("unsub", idx, clock[0]))
             return Disposable(dispose)
         self.observable = reactivex.Observable(subscribe)
 
-    def push(self, ev, idx=0):
-        if idx >= len(self.observers):
-            return
-        o = self.observers[idx]
-        if ev[0] == "N":
-            o.on_next(ev[1])
-        elif ev[0] == "E":
-            o.on_error(ev[1])
-        else:
-            o.on_completed()
+    def push(self, ev, idx=None):
+        for rec in list(self.observers):
+            if not rec[1]:
+                continue
+            o = rec[0]
+            if ev[0] == "N":
+                o.on_next(ev[1])
+            elif ev[0] == "E":
+                o.on_error(ev[1])
+            else:
+                o.on_completed()
 
 
-def run_hot(build, inputs, dispose_at=None):
+def run_hot(build, inputs, dispose_at=None, warmup=None):
     """inputs: list of ('N', value) | ('E', exception) | ('C',).
+    warmup: optional list of events for an EARLIER subscription of the same
+    observable object, which is disposed before the measured subscription starts
+    (cold re-subscription: per-subscription state must start fresh).
     -> dict(out=[(tag, kind, payload)], escapes=[(tag, exc)], sublog=[...], build_error=None|exc)"""
     clock = CURRENT_TAG
     clock[0] = 0
@@ -122,6 +129,23 @@ def run_hot(build, inputs, dispose_at=None):
         obs = build(src.observable)
     except Exception as e:
         return {"out": [], "escapes": [], "sublog": [], "build_error": e}
+    if warmup is not None:
+        try:
+            w = obs.subscribe(lambda v: None, lambda e: None, lambda: None)
+            for ev in warmup:
+                try:
+                    src.push(ev)
+                except Exception:
+                    pass
+            w.dispose()
+        except Exception:
+            pass
+        del src.log[:]
+        del RAISED[:]
+        del CALLS[:]
+        base = len(src.observers)
+    else:
+        base = 0
     try:
         sub = obs.subscribe(lambda v: out.append((clock[0], "N", v)),
                             lambda e: out.append((clock[0], "E", e)),
@@ -139,8 +163,10 @@ def run_hot(build, inputs, dispose_at=None):
             src.push(ev)
         except Exception as e:
             escapes.append((k + 1, e))
-    return {"out": out, "escapes": escapes, "sublog": src.log, "build_error": None,
-            "disposed_at": disposed_at, "n_subscriptions": len(src.observers), "raised": list(RAISED), "calls": list(CALLS)}
+    sublog = [(w, i - base, t) for (w, i, t) in src.log]
+    return {"out": out, "escapes": escapes, "sublog": sublog, "build_error": None,
+            "disposed_at": disposed_at, "n_subscriptions": len(src.observers) - base, "raised": list(RAISED),
+            "calls": list(CALLS)}
 
 
 def g_ev(kind, payload, enc):
@@ -171,12 +197,31 @@ def g_inputs(inputs, pool):
     return "[" + "; ".join(one(e) for e in inputs) + "]"
 
 
+def gen_warmup(rng, pool, values=None):
+    """events of an earlier, abandoned subscription: some elements, then an error,
+    a completion, or nothing (the subscription is disposed afterwards)"""
+    vals = values if values is not None else list(range(pool.K))
+    w = [("N", pool.val(rng.choice(vals))) for _ in range(rng.choice([1, 2, 3, 4]))]
+    r = rng.random()
+    if r < 0.35:
+        w.append(("E", UserError(14)))
+    elif r < 0.5:
+        w.append(("C",))
+    return w
+
+
 def gen_inputs(rng, pool, maxlen=7, conforming=None, values=None):
     """mostly well-formed: elements then a terminal; sometimes no terminal;
     sometimes non-conforming (events after the terminal, double terminal)."""
     n = rng.choice([0, 1, 1, 2, 2, 3, 3, 4, 5, maxlen])
     vals = values if values is not None else list(range(pool.K))
-    ins = [("N", pool.val(rng.choice(vals))) for _ in range(n)]
+    ins = []
+    sticky = rng.random() < 0.5            # runs of equal consecutive values (distinct_until_changed, pairwise ...)
+    for _ in range(n):
+        if ins and sticky and rng.random() < 0.5:
+            ins.append(ins[-1])
+        else:
+            ins.append(("N", pool.val(rng.choice(vals))))
     t = rng.random()
     if t < 0.55:
         ins.append(("C",))
